@@ -735,6 +735,7 @@ class Run:
             "states": sorted(self.states),
             "obs": {"processes": self.nprocs},
             "trace": self.trace,
+            **({"events": self.log.events} if os.environ.get("VERIF_KEEP_EVENTS") else {}),
         }
 
 
